@@ -84,6 +84,7 @@ class Bench:
             hooks[c + '::disable'] = lambda it, f, st, a: (it.record_of(it.cur_obj).__setitem__('enabled', 0), 1)[1]
         self.it = minterp.Interp(prog, {'str:empty': [0]}, hooks=hooks, inline=('*',), max_steps=4000000)
         self.it.noeval = set(getattr(self.it, 'noeval', ())) | {'LogNotice', 'LogErr', 'LogWarn'}
+        self.it.ctor_hooks['std::thread::id'] = lambda it, f, st, args: (args[0] if args and isinstance(args[0], int) else 0)          # a copy, or the id that names no thread
         self.rec = self.it.new_record(L)
         self.it._keep.append(self.rec)
         wl = self.rec.get('water_line_')
